@@ -38,6 +38,33 @@ notes.update({
 "C19-m4":"wave 2. Missed at first (oversize frames were far above every limit); added declared lengths between this server's configured cap and the library default",
 "C20-m3":"wave 2. Missed at first (every target was Running when the link came up); the first target is now, in a third of the scenarios, a spawn_instant actor still in pre_start during authentication and synchronisation",
 })
+notes.update({
+"C01-m6":"wave 3. Missed at first (no workload delivered messages in wire format to an actor whose handler fails); added engine 'ser' (send_serialized casts and calls mixed with typed sends, one failing message) for C01/C02/C04",
+"C02-m5":"wave 3. Not a violation of C02 as stated (the accepted message sits behind the drain marker, i.e. the actor exits before reaching it); it violates C07 and is reported by the C07 check (after-marker), like C02-m2",
+"C02-m6":"wave 3. Missed at first (no serialized call with an already closed reply port was ever sent); engine 'ser' sends such calls and demands that an accepted one is handled exactly once",
+"C03-m5":"wave 3. NOT REPORTED and out of reach: the change is in the async-std backend, which the harness does not build (DESIGN section 8)",
+"C03-m6":"wave 3. Missed by C03 (its requesters call kill() directly); it is a timer defect (kill_after through a derived ref must kill) and is reported by C12 (kill-after-ignored), which already used derived refs",
+"C04-m5":"wave 3. Missed at first (the supervisor was Running-idle or Running-busy, never Draining); added 36 cases with a draining supervisor (backlog + drain() before the child exits)",
+"C05-m6":"wave 3. Missed at first: the thread engine's tap monitor takes the tree lock on the exiting thread, which orders it behind a linker and hides an exit path that skips the lock; half of the threaded scenarios now run without the tap, a bounded in-lock rendezvous LINK_IN_LOCK <-> CLEANUP_AFTER_TERMINATE was added, and a third of the scenarios use a childless victim that the link operations aim at",
+"C06-m6":"wave 3. Missed at first (every child was started before the exit); a third of the stop/kill/drain scenarios now link a spawn_instant child by hand just before the exit is requested (still Unstarted when the subject exits)",
+"C07-m6":"wave 3. Missed at first (no sender went through a DerivedActorRef); derived-ref senders added to C02/C07 (a refused send must hand the derived message back)",
+"C08-m5":"wave 3. Missed at first (pre_start panics were always inside the async body, hence caught); added cause PreStartSyncPanic: a hand-written pre_start that panics in its synchronous part after its side effects, for all four spawn APIs",
+"C08-m6":"wave 3. Missed at first (side effects were only performed by pre_start, which never runs when the start task is cancelled before its first poll); aborted instant spawns are now also linked from outside while Unstarted",
+"C09-m5":"wave 3. Missed at first (timeouts were 1-50 ms); 0 ms added",
+"C09-m6":"wave 3. Missed by C09 (its callees are local); the change is in the cluster's RemoteActor and is reported by C20 (reply-misrouted, reply-from-nowhere), like C20-m1",
+"C10-m5":"wave 3. Missed at first (failing starts went through the awaited spawn, whose caller only continues after the clean-up); added a failing spawn_instant actor watched through its reference: once Stopped is seen the name must be free",
+"C10-m6":"wave 3. Missed at first (nobody listened to pid lifecycle events in C10); added a pid lifecycle listener that must never hear about a spawn that was refused",
+"C13-m5":"wave 3. Missed at first (UpdateSettings never carried only a handler); added Op::SetHandler and the clause discard-to-stale-handler",
+"C13-m6":"wave 3. Missed at first (workers never stopped by themselves); added retiring workers (stop + slow post_stop) and a targeted generator; reported by silently-lost at about 1 scenario in 8000, hence 32000 scenarios per quick run",
+"C14-m5":"wave 3. NOT REPORTED: needs an idle-while-queued clause for sticky routing; the straightforward extension raises alarms on the unchanged tree (same-key jobs legitimately wait in the factory queue behind one busy worker) and was reverted (DESIGN sections 6 and 8)",
+"C14-m6":"wave 3. Missed at first (no worker was ever Stopping-but-not-yet-replaced while same-key jobs kept coming); retiring workers added; reported by key-order. patch_rebased.diff is the same change on top of the later fix 9f411cc, which touches the same hunk",
+"C15-m5":"wave 3. Missed at first (the worker-queue bound was switched off after any limit change); added the post-change bound for worker-queued routers and the targeted settings generator. The same extension exposed the genuine defect F13 (fixed, 9f411cc)",
+"C16-m6":"wave 3. Missed at first (the virtual-time engine let the dispatcher run between a burst and the next subscribe); in a third of the v2 bursts it no longer does, so a subscribe can land in the same dispatcher batch as the send that detects a dead subscriber",
+"C18-m6":"wave 3. Missed by C18 (its sessions only end normally); reported by C20's virtual-time check (not-ready) through the new event 'a proxy is stopped by hand' (the session ends abnormally) followed by a redial",
+"C19-m6":"wave 3. Missed at first (the derived enum had no rpc variant whose only field is the reply port); added one and the clause trailing-args-accepted",
+"C20-m5":"wave 3. Missed at first (needs casts arriving for an actor at the very moment it exits, on real threads); added exit-under-load with a fence to the E-TCP engine (proxy-outlives-original); about 1 TCP scenario in 300, hence 640 per quick run",
+"C20-m6":"wave 3. Missed at first (no membership change raced a session's initial group scan); E-TCP now has up to 1500 pre-existing groups and a thread joining fresh groups across the session set-up, checked after a fence (membership-not-mirrored)",
+})
 for k,t in notes.items():
     p=f'/verif/seeded/{k}/meta.json'
     m=json.load(open(p)); m['first_run_missed']=True; m['strengthening']=t
